@@ -42,3 +42,10 @@ mod server;
 mod server_handle;
 mod shutdown_mode;
 mod worker;
+
+#[cfg(feature = "verif_hooks")]
+#[doc(hidden)]
+/// Verification hook: number of connections that the acceptor has handed over to a worker's inbox
+/// since the process started. Lets an out-of-tree check *know* that a connection is queued at a
+/// worker before it triggers a shutdown, instead of guessing with a pause.
+pub static VERIF_DISPATCHED: std::sync::atomic::AtomicUsize = std::sync::atomic::AtomicUsize::new(0);
